@@ -800,6 +800,9 @@ func c20Replay(c *h.Ctx, tt *c20Types) (handled bool) {
 		fmt.Sscan(fmt.Sprint(m["seed"]), &sd)
 		c20CheckAfterRejected(c, c20CorpusFor(c), sd)
 		c.Eval(string(b), true)
+	case "caller-slice":
+		c20CheckCallerSlices(c)
+		c.Eval(string(b), true)
 	case "negative-bigint":
 		var sd uint64
 		fmt.Sscan(fmt.Sprint(m["seed"]), &sd)
@@ -1221,6 +1224,7 @@ func driveC20(c *h.Ctx) error {
 			c.Eval(fmt.Sprintf("after-rejected:%d", i), true)
 			c.Count("after-rejected")
 		}
+		c20CheckCallerSlices(c)
 		for i := 0; i < c.Pick(40, 400); i++ {
 			c20CheckNegBig(c, c.Rng.Fork(uint64(96000+i)).U64())
 			c.Eval(fmt.Sprintf("negative-bigint:%d", i), true)
@@ -1348,6 +1352,8 @@ func c20TaskName(t c20Task) string {
 	k := t.Kind
 	if t.Kind == "syn" {
 		k = c20Roots[t.Root].String()
+	} else if t.Kind == "val" {
+		k = "generic-tree-with-extension-tags"
 	} else if t.Resp {
 		k = "kmip-response"
 	} else {
@@ -1403,6 +1409,21 @@ func c20BuildTasks(c *h.Ctx, r *h.Rand, corpus []c20CorpusMsg, nk, ns int) []c20
 			in = c20SynMarshal("ttlv", tag, c20GatedNew{A: int32(r.Intn(100)), F: int32(r.Intn(100))})
 		}
 		tasks = append(tasks, c20Task{Kind: "syn", Op: "dec", Enc: "ttlv", Root: 3, Tag: tag, In: in})
+	}
+	// generic trees full of extension tags never seen before by the process (vendor extensions, custom
+	// attributes, unknown payload fields are written <TTLV tag="0x54...."> / "tag":"0x54...."), decoded into ttlv.Value
+	for i := 0; i < ns/8+4; i++ {
+		tree := ttlv.Struct{}
+		base := 0x541000 + (r.Intn(1<<12))<<6
+		for k := 0; k < 48; k++ {
+			tree = append(tree, ttlv.Value{Tag: base + k, Value: int32(k)})
+		}
+		v := ttlv.Value{Tag: 0x540900 + i%16, Value: tree}
+		e := encs[1+r.Intn(2)]
+		func() {
+			defer func() { _ = recover() }()
+			tasks = append(tasks, c20Task{Kind: "val", Op: "dec", Enc: e, In: c20Marshal(e, &v)})
+		}()
 	}
 	for i := 0; i < ns; i++ {
 		root := r.Intn(len(c20Roots))
